@@ -68,6 +68,7 @@ func (lineParser *LineParser) parseMarkup() (*ParseResult, error) {
 				}
 				builder.WriteRune(nextRune)
 				lineParser.sourcePosition++
+				lastRune = nextRune
 				continue
 			}
 			// It wasn't an escaped bracket. Continue on, and parse the '\' as a normal character.
